@@ -97,6 +97,7 @@ class Plan:
         self.inherent_ty = None       # inherent mode: (name, generics decl text)
         self.body_paths = False       # fn bodies mention `Self::<item>` / `<Self>::<item>` paths (expansion-level checks only: in a trait
                                       # family rustc finds such a path ambiguous between the trait and its helper, E0034)
+        self.header_qual = ""         # qualifier of the trait path / the self type (inherent mode): `self::` in every block header
         self.trait_extra_items = ""   # further items of the trait definition, verbatim (methods with non-identifier argument patterns)
         self.notes = {}
 
@@ -179,9 +180,10 @@ class Plan:
             st = pr(named(self_ty, names))
             if m.patch.get("paren_self") and not shadow:
                 st = "(" + st + ")"     # a syntactic twin of the header: same type, another ImplGroupId
-            head = f"{uns}impl{generics} {tname}{ta} for {st}{wh}"
+            qual = self.header_qual if (not shadow and not force_trait and self.mode == "trait") else ""
+            head = f"{uns}impl{generics} {qual}{tname}{ta} for {st}{wh}"
         else:
-            head = f"impl{generics} {pr(named(self_ty, names))}{wh}"
+            head = f"impl{generics} {self.header_qual if not shadow else ''}{pr(named(self_ty, names))}{wh}"
         if shadow or not with_items:
             return head + " {}"
         return head + " { " + " ".join(self.block_items(bi, m)) + " }"
